@@ -196,19 +196,8 @@ def run(ctx: Ctx):
     conversions_drop_caches(ctx, model, "C15", "R-fresh")
     no_memoisation(ctx, model, "C15", "R-fresh", ("pygaps.characterisation.",),
                    "the cached value is keyed by object identity / name and survives a conversion or refit of the same object")
-    # absolute tolerances make a result depend on the scale (unit) of the numbers compared
-    for fi in model.all_functions():
-        if not fi.qualname.startswith("pygaps.characterisation."):
-            continue
-        for c in ast.walk(fi.node):
-            if isinstance(c, ast.Call) and ast.unparse(c.func).split(".")[-1] in ("isclose", "allclose"):
-                kws = {k.arg: k.value for k in c.keywords}
-                atol0 = "atol" in kws and isinstance(kws["atol"], ast.Constant) and kws["atol"].value == 0
-                is_math = ast.unparse(c.func).startswith("math.")
-                abs0 = is_math and ("abs_tol" not in kws)
-                ctx.ob(atol0 or abs0, Finding("C15.R-scale", fi.where, f"{fi.short}|absolute-tolerance:{ast.unparse(c)[:50]}",
-                                              f"line {c.lineno}: `{ast.unparse(c)[:100]}` compares unit-bearing data with an absolute tolerance "
-                                              "(numpy default atol=1e-8): the decision changes when the same isotherm is expressed in a smaller unit"))
+    from ..sites import no_absolute_tolerance
+    no_absolute_tolerance(ctx, model, "C15", "R-scale", ("pygaps.characterisation.",), "unit-bearing isotherm data")
     ctx.rule("R-scale: no comparison with an absolute tolerance on isotherm data inside pygaps.characterisation")
     # kernel PSD: with kernel_units omitted the data are read in a complete literal representation (interpreted, not matched)
     from ..absint import Obj, Term
